@@ -21,6 +21,7 @@ BASE_WEIGHTS = {
     'import': 1.5,
     'reopen': 1,
     'reinit': 0.4,
+    'reinit_clear': 0.15,
     'plant_duplicate': 0.4,
     'damage_readd': 0,
 }
@@ -114,7 +115,7 @@ def gen_op(rng, name, npool, opts):  # pylint: disable=too-many-branches,too-man
         }
     if name == 'reopen':
         return {'op': name}
-    if name == 'reinit':
+    if name in ('reinit', 'reinit_clear'):
         return {'op': name}
     if name == 'plant_duplicate':
         return {'op': name, 'key': rng.randrange(64), 'good': rng.random() < 0.7}
@@ -144,9 +145,9 @@ def make_opts(rng, npool, npool_small=None):
     enabled = [i for i in range(npool) if rng.random() < 0.7] or [0, 1]
     return {
         'pool_enabled': enabled,
-        'loose_via': subset(rng, ['bytes', 'stream', 'short', 'file', 'offset']),
+        'loose_via': subset(rng, ['bytes', 'stream', 'short', 'file', 'offset', 'noseek']),
         'pack_api': subset(rng, ['objects', 'streams', 'single']),
-        'pack_via': subset(rng, ['bytesio', 'short', 'lazy', 'offset']),
+        'pack_via': subset(rng, ['bytesio', 'short', 'lazy', 'offset', 'noseek']),
         'pack_compress': subset(rng, [True, False]),
         'no_holes': subset(rng, [True, False]),
         'read_twice': subset(rng, [True, False]),
